@@ -266,6 +266,13 @@ def run(ctx):
         for _, _, e in f.roots():
             for n in walk(e["expr"]):
                 if isinstance(n, dict) and n.get("k") == "cast" and n.get("ck") in ("static", "c", "functional", "reinterpret") and ARITH.match((n.get("to") or n.get("type") or "").strip()):
+                    inner = ir.unwrap(n.get("e"))
+                    while isinstance(inner, dict) and inner.get("k") == "paren" and isinstance(inner.get("e"), dict):
+                        inner = ir.unwrap(inner["e"])
+                    truth = isinstance(inner, dict) and ((inner.get("k") == "bin" and inner.get("op") in ("==", "!=", "<", ">", "<=", ">=", "&&", "||")) or (inner.get("k") == "un" and inner.get("op") == "!")
+                                                        or (inner.get("k") == "call" and inner.get("op") in ("==", "!=", "<", ">", "<=", ">=")))
+                    if truth or (n.get("to") or n.get("type") or "").replace("const ", "").strip() == "bool" and truth:
+                        continue  # a truth value computed from the argument (the condition of an assert) is not the component
                     if any(isinstance(m, dict) and m.get("k") == "ref" and str(m.get("decl", "")).split(":", 1)[-1] in pnames for m in walk(n.get("e") or {})):
                         ncast += 1
                         ctx.bad("R16.8", f, "component-cast:%s" % fmt(n)[:50], "%s hashes `%s`: the component is converted to %s first - values that differ only in what that type cannot hold "
